@@ -165,3 +165,131 @@ Example C02_nonvacuous :
   validate fmt32 (HeadersProofs.bytes_mem 0 (HeadersProofs.tiny_pe32 96)) = Ok 4096 /\
   blocks [0;16;0;0; 12;0;0;0; 5;48; 0;0] = Ok [ {| b_off := 0; b_va := 4096; b_sob := 12; b_words := [12293; 0] |} ].
 Proof. vm_compute. repeat split; reflexivity. Qed.
+
+(* =====================================================================================================
+   Checked twins (Model/Checked.v, Proofs/CheckedProofs.v).  The first-phase models above write some plain Rust
+   operators with unbounded arithmetic and total [nth], so "no Fault" over them never asked whether the operator can
+   overflow or the index is in range.  Each twin restates its function with [chk_add/chk_sub/chk_mul] at EVERY plain
+   [+ - *], [Fault PIndex]/[PSliceOrder] at every index and re-slicing, and a reference check at every raw cast; the
+   theorems say that the twin returns exactly what the model returns: no operator of the mirrored Rust function
+   panics, under the machine ranges stated.
+   ===================================================================================================== *)
+From PV.Model Require Import Checked.
+From PV.Proofs Require CheckedProofs.
+
+(* pe.rs:85/:133/:693 - [rva - VirtualAddress], [section_offset + PointerToRawData], [file_offset as Rva - PointerToRawData],
+   [section_offset + VirtualAddress], [VirtualEnd - rva]: for EVERY section table and argument, no range hypothesis *)
+Theorem C02_checked_rva_to_file_offset : forall soh secs rva, rva_to_file_offset_chk soh secs rva = rva_to_file_offset soh secs rva.
+Proof. exact CheckedProofs.rva_to_file_offset_chk_eq. Qed.
+Print Assumptions C02_checked_rva_to_file_offset.
+Theorem C02_checked_file_offset_to_rva : forall soh secs fo, file_offset_to_rva_chk soh secs fo = file_offset_to_rva soh secs fo.
+Proof. exact CheckedProofs.file_offset_to_rva_chk_eq. Qed.
+Print Assumptions C02_checked_file_offset_to_rva.
+Theorem C02_checked_range_file : forall len secs rva min_size, range_file_chk len secs rva min_size = range_file len secs rva min_size.
+Proof. exact CheckedProofs.range_file_chk_eq. Qed.
+Print Assumptions C02_checked_range_file.
+(* slice / read on both kinds of view and va_to_rva: [va - image_base] behind [va < image_base ||] *)
+Theorem C02_checked_slice : forall v rva min_size align, slice_chk v rva min_size align = slice v rva min_size align.
+Proof. exact CheckedProofs.slice_chk_eq. Qed.
+Print Assumptions C02_checked_slice.
+Theorem C02_checked_read : forall v va min_size align, read_chk v va min_size align = read v va min_size align.
+Proof. exact CheckedProofs.read_chk_eq. Qed.
+Print Assumptions C02_checked_read.
+Theorem C02_checked_va_to_rva : forall v va, va_to_rva_chk v va = va_to_rva v va.
+Proof. exact CheckedProofs.va_to_rva_chk_eq. Qed.
+Print Assumptions C02_checked_va_to_rva.
+
+(* the typed read family on both paths: the casts of derva/deref, derva_copy, derva_into ([&bytes[..len]]), derva_slice;
+   the loop of derva_slice_f ([len * size_of], [offset + size_of] - the overflow the source comment admits -, [len += 1],
+   the element reference and the final from_raw_parts); CStr::from_bytes ([len + 1], get_unchecked) and the NUL-stripping
+   [len - 1] of c_str.rs:93.  [size mod align = 0] holds of every Rust type; [v_len + size < 2^64] is the hypothesis the
+   comment at pe.rs:349 calls "ridiculous" to violate (a slice has at most isize::MAX bytes) *)
+Theorem C02_checked_typed_reads : forall v byva, SafetySpec.placed (v_addr v) (v_len v) ->
+  (forall a size align, rd_chk (sl_of v byva) (v_addr v) a size align = rd (sl_of v byva) a size align) /\
+  (forall a size, rd_copy_chk (sl_of v byva) (v_addr v) a size = rd_copy (sl_of v byva) a size) /\
+  (forall a size, rd_into_chk (sl_of v byva) a size = rd_copy (sl_of v byva) a size) /\
+  (forall a size align n, rd_slice_chk (sl_of v byva) (v_addr v) a size align n = rd_slice (sl_of v byva) a size align n) /\
+  (forall a size align p, 0 < size -> 0 < align -> size mod align = 0 -> v_len v + size < W64 ->
+     rd_slice_f_chk (v_get v) (sl_of v byva) (v_addr v) a size align p = rd_slice_f (v_get v) (sl_of v byva) a size align p) /\
+  (forall a, rd_c_str_chk (v_get v) (sl_of v byva) (v_addr v) a = rd_c_str (v_get v) (sl_of v byva) a) /\
+  (forall a q, rd_c_str (v_get v) (sl_of v byva) a = Ok q -> cstr_len_chk (v_addr v) q = Ok (r_len q - 1)).
+Proof. exact CheckedProofs.view_typed_chk_eq. Qed.
+Print Assumptions C02_checked_typed_reads.
+Theorem C02_checked_slice_f_needs_range :
+  scan_f_chk (fun _ => 1) 0 1 (fun _ => false) 0 (W64 - 1) 8 1 2305843009213693951 = Fault POverflow.
+Proof. exact CheckedProofs.scan_f_chk_needs_range. Qed.
+Print Assumptions C02_checked_slice_f_needs_range.
+
+(* pe.rs:764 validate_headers: [e_lfanew + size_of NT], [num_rva_sizes * size_of DD], [nt_end + size_of_data_dir],
+   [NumberOfSections * size_of SH], [e_lfanew + (size_of NT - size_of OPT) + SizeOfOptionalHeader],
+   [size_of_sections + start_of_sections], and the two header casts, for every buffer of bytes at any address *)
+Theorem C02_checked_validate : forall f m, f = fmt32 \/ f = fmt64 -> mem_ok m -> validate_chk f m = validate f m.
+Proof. exact CheckedProofs.validate_chk_eq. Qed.
+Print Assumptions C02_checked_validate.
+(* wrap/file.rs:12: the twin lets a Fault of the PE32 retry through where Headers.v:157 has [| _ => Err EBounds] *)
+Theorem C02_checked_wrapper : forall m, mem_ok m -> wrap_from_bytes_chk m = wrap_from_bytes m.
+Proof. exact CheckedProofs.wrap_from_bytes_chk_eq. Qed.
+Print Assumptions C02_checked_wrapper.
+
+(* rich_structure.rs:36 try_from: the seven [image[..]] indexings, [end - 1], [end - 2], [end - 6], [start + 1..3],
+   [start -= 2] and the two re-slicings - for every dword list, including every e_lfanew below 0x40 (the scan stops
+   at [end < 16] before anything is indexed) *)
+Theorem C02_checked_rich_try_from : forall image, lenN image < W64 -> try_from_chk image = try_from image.
+Proof. exact CheckedProofs.try_from_chk_eq. Qed.
+Print Assumptions C02_checked_rich_try_from.
+(* xor_key ([self.image[1]]), records ([&self.image[4..len - 2]]) and checksum (rotate amounts [i + 0..3], [i += 4] in u32)
+   of an accepted structure *)
+Theorem C02_checked_rich_accessors : forall image se, Forall (fun d => d < W32) image -> lenN image < W64 -> try_from image = Ok se ->
+  xor_key_chk image se = Ok (xor_key image se) /\ records_chk image se = Ok (records image se) /\
+  checksum_chk image se = Ok (checksum image se).
+Proof. exact CheckedProofs.rich_accessors_chk_eq. Qed.
+Print Assumptions C02_checked_rich_accessors.
+(* encode: below 2^29 - 6 records the code as it stood and the repaired code both are the model *)
+Theorem C02_checked_rich_encode : forall stub recs dest_len, 4 * lenN stub < W32 -> N.of_nat dest_len < W64 -> (lenN recs + 2) * 8 + 32 < W32 ->
+  encode_chk stub recs dest_len = CheckedProofs.lift_encode (encode stub recs dest_len) /\
+  encode_orig_chk stub recs dest_len = CheckedProofs.lift_encode (encode stub recs dest_len).
+Proof. exact CheckedProofs.encode_chk_eq. Qed.
+Print Assumptions C02_checked_rich_encode.
+(* F41: the obligation was false - [((xor_key / 32) % 3 + n as u32) * 8 + 0x20] leaves u32 from 2^29 - 4 records on
+   (panic in checked builds, a wrapped length in optimised builds); repaired in /repo by computing in usize *)
+Theorem C02_F41_rich_encode_orig_refuted : forall stub recs dest_len, 4 * lenN stub < W32 -> 536870908 <= lenN recs -> lenN recs < W32 ->
+  encode_orig_chk stub recs dest_len = Fault POverflow.
+Proof. exact CheckedProofs.encode_orig_refuted. Qed.
+Print Assumptions C02_F41_rich_encode_orig_refuted.
+Theorem C02_checked_rich_encode_total : forall stub recs dest_len, 4 * lenN stub < W32 -> N.of_nat dest_len < W64 -> lenN recs < 2 ^ 60 ->
+  exists r, encode_chk stub recs dest_len = Ok r.
+Proof. exact CheckedProofs.encode_chk_total. Qed.
+Print Assumptions C02_checked_rich_encode_total.
+
+(* base_relocs.rs:55 parse + :103 peek + :123 next: exactly the directories at a multiple of 4 reach the iterator (the
+   Err(Misaligned) branch Model/Relocs.v leaves out), and there the walk with its raw references and the re-slicing
+   [&self.data[block_size..]] is the model; build's [8 + 2 * n] *)
+Theorem C02_checked_reloc_parse : forall base data, lenN data + 3 < W64 ->
+  reloc_parse_chk base data = if base mod 4 =? 0 then blocks data else Err EMisaligned.
+Proof. exact CheckedProofs.reloc_parse_chk_spec. Qed.
+Print Assumptions C02_checked_reloc_parse.
+Theorem C02_checked_reloc_build_size : forall n, 2 * n + 11 < W64 -> build_size_chk n = Ok (align_to W64 4 (8 + 2 * n)).
+Proof. exact CheckedProofs.build_size_chk_eq. Qed.
+Print Assumptions C02_checked_reloc_build_size.
+
+(* strings.rs:81 Enumerator::next: [bytes[i]], [i += 1], [i - start], [i + 1], [&bytes[start..i]] *)
+Theorem C02_checked_strings_next : forall c base bytes offset, lenN bytes < W64 ->
+  str_next_chk c base bytes offset = Ok (Strings.next c base bytes offset).
+Proof. exact CheckedProofs.str_next_chk_eq. Qed.
+Print Assumptions C02_checked_strings_next.
+
+Example C02_checked_nonvacuous :
+  validate_chk fmt32 (HeadersProofs.bytes_mem 0 (HeadersProofs.tiny_pe32 96)) = Ok 4096 /\
+  blocks_chk 4096 [0;16;0;0; 12;0;0;0; 5;48; 0;0] = Ok [ {| b_off := 0; b_va := 4096; b_sob := 12; b_words := [12293; 0] |} ] /\
+  blocks_chk 4098 [0;16;0;0; 12;0;0;0; 5;48; 0;0] = Fault UBAlign /\
+  reloc_parse_chk 4098 [0;16;0;0; 12;0;0;0; 5;48; 0;0] = Err EMisaligned /\
+  total_size_orig_chk 0 536870908 = Fault POverflow /\ total_size_chk 0 536870908 = Ok 4294967296 /\
+  rva_to_file_offset_chk 512 [{| s_va := 4096; s_vs := 512; s_prd := 1024; s_srd := 512 |}] 4100 = Ok 1028.
+Proof. vm_compute. repeat split; reflexivity. Qed.
+
+(* headers.rs:32 check_sum on a validated image: [e_lfanew + offset_of + offset_of], [dwords[i]], the u64 sums of the
+   fold (the accumulator stays below 3 * 2^32), [&image[dwords.len() * 4..]], [dw[..tail.len()]], [check_sum += len] *)
+Theorem C02_checked_check_sum : forall f m soi, f = fmt32 \/ f = fmt64 -> mem_ok m -> m_len m + 65536 < W64 -> validate f m = Ok soi ->
+  check_sum_chk f m = Ok (check_sum f m).
+Proof. exact CheckedProofs.check_sum_chk_eq. Qed.
+Print Assumptions C02_checked_check_sum.
